@@ -49,15 +49,15 @@ def compare(case, run):
     if run["status"] == "ok" and e["status"] == "ok" and not cancelled and not out:
         if bag(run["pkgs"]) != bag(e["pkgs"]):
             out.append("inventory differs: observed %s, specification says %s" % (run["pkgs"], e["pkgs"]))
-        elif run.get("ties", 0) != sum(t[3] for t in e["pkgs"]):
-            out.append("%d of %d tie packages reported" % (run.get("ties", 0), sum(t[3] for t in e["pkgs"])))
+        elif run.get("ties", 0) != 3 * sum(t[3] for t in e["pkgs"]):
+            out.append("%d of %d tie packages reported" % (run.get("ties", 0), 3 * sum(t[3] for t in e["pkgs"])))
         if run["plugins"] != e["plugins"]:
             out.append("plugin statuses %s, specification says %s" % (run["plugins"], e["plugins"]))
         if not run["sorted"]:
             out.append("result not in the documented sorted order")
         if run["dup_status"]:
             out.append("a plugin has more than one status entry")
-        if run["standalone"] != 1 or run["detector"] != 1:
+        if run["standalone"] != (0 if run.get("no_standalone") else 1) or run["detector"] != 1:
             out.append("standalone extractor ran %d times, detector %d times (expected once each)" % (run["standalone"], run["detector"]))
     return out
 
